@@ -43,8 +43,14 @@ def run(ctx, module, cfg=None, cfg_text=None, workers=16, timeout=900, env=None,
     if env:
         e.update(env)
     t0 = time.time()
+
+    def unpin():
+        try:
+            os.sched_setaffinity(0, {int(x) for x in os.environ["VERIF_ALLCPUS"].split(",")})
+        except Exception:
+            pass
     try:
-        p = subprocess.run(cmd, cwd=d, env=e, stdout=subprocess.PIPE, stderr=subprocess.STDOUT, timeout=timeout)
+        p = subprocess.run(cmd, cwd=d, env=e, stdout=subprocess.PIPE, stderr=subprocess.STDOUT, timeout=timeout, preexec_fn=unpin)
     except subprocess.TimeoutExpired:
         raise util.MachineryError("TLC timed out after %ds on %s/%s" % (timeout, module, cfg))
     finally:
